@@ -6,6 +6,8 @@ import (
 	"bytes"
 	"fmt"
 	"math"
+	"sync"
+	"sync/atomic"
 	"testing"
 
 	"github.com/bokysan/socketace/v2/internal/util/enc"
@@ -226,6 +228,91 @@ func TestRandom(t *testing.T) {
 }
 
 // FuzzCodecs is the native coverage-guided target used by the thorough tier (round-trip oracle inside).
+// TestBatchesAndConcurrency: the codecs are process-wide objects used by every DNS query handler at once, and what
+// Encode/Decode return belongs to the caller. (1) a batch of inputs is encoded keeping the returned slices, and only
+// then each retained encoding is decoded (and likewise for retained decodings); (2) several goroutines do round trips
+// at the same time, each copying its result at once as the tunnel code does. Every round trip must still be exact.
+func TestBatchesAndConcurrency(t *testing.T) {
+	budget := int32(vlib.Pick(400, 6000))
+	var ran int32
+	rapid.Check(t, func(rt *rapid.T) {
+		if atomic.AddInt32(&ran, 1) > budget {
+			return
+		}
+		c := codecs[rapid.IntRange(0, len(codecs)-1).Draw(rt, "codec")]
+		n := rapid.IntRange(2, 12).Draw(rt, "batch")
+		ins := make([][]byte, n)
+		for i := range ins {
+			ins[i] = rapid.SliceOfN(rapid.Byte(), 0, 300).Draw(rt, "input")
+		}
+		concurrent := rapid.Bool().Draw(rt, "concurrent")
+		sig := "codec=" + c.name
+		fail := func(i int, msg string) {
+			full := fmt.Sprintf("codec=%s batch of %d (concurrent=%v), input %d = %s: %s", c.name, n, concurrent, i, vlib.Hex(ins[i]), msg)
+			if vlib.IsKnown("C08", sig) {
+				vlib.Rec.Known(sig, map[string]interface{}{"codec": c.name, "input": vlib.Hex(ins[i]), "failure": msg})
+				return
+			}
+			vlib.Rec.Violation(map[string]interface{}{"property": "C08", "codec": c.name, "input_hex": fmt.Sprintf("%x", ins[i]), "batch": n, "concurrent": concurrent, "failure": msg})
+			rt.Fatalf("%s", full)
+		}
+		vlib.Rec.Case(fmt.Sprintf("batch|%s|%v|%x", c.name, concurrent, ins), true, []string{"codec:" + c.name, "class:batch", fmt.Sprintf("concurrent:%v", concurrent)}, func() interface{} {
+			return map[string]interface{}{"codec": c.name, "batch": n, "concurrent": concurrent}
+		})
+		if !concurrent {
+			outs := make([][]byte, n)
+			for i := range ins {
+				outs[i] = c.e.Encode(ins[i])
+			}
+			decs := make([][]byte, n)
+			for i := range ins {
+				d, err := c.e.Decode(outs[i])
+				if err != nil {
+					fail(i, fmt.Sprintf("the encoding kept while %d further inputs were encoded no longer decodes: %v", n-1-i, err))
+					return
+				}
+				decs[i] = d
+			}
+			for i := range ins {
+				if !bytes.Equal(decs[i], ins[i]) {
+					fail(i, fmt.Sprintf("the encoding/decoding kept while the rest of the batch was processed decodes to %s", vlib.Hex(decs[i])))
+					return
+				}
+			}
+			return
+		}
+		bad := make([]string, n)
+		var wg sync.WaitGroup
+		for i := range ins {
+			wg.Add(1)
+			go func(i int) {
+				defer wg.Done()
+				defer func() {
+					if r := recover(); r != nil {
+						bad[i] = fmt.Sprint("panic: ", r)
+					}
+				}()
+				for k := 0; k < 150 && bad[i] == ""; k++ {
+					out := append([]byte(nil), c.e.Encode(ins[i])...)
+					d, err := c.e.Decode(out)
+					if err != nil {
+						bad[i] = "round trip at the same time as others: " + err.Error()
+					} else if !bytes.Equal(append([]byte(nil), d...), ins[i]) {
+						bad[i] = "round trip at the same time as others gives " + vlib.Hex(d)
+					}
+				}
+			}(i)
+		}
+		wg.Wait()
+		for i := range ins {
+			if bad[i] != "" {
+				fail(i, bad[i])
+				return
+			}
+		}
+	})
+}
+
 func FuzzCodecs(f *testing.F) {
 	f.Add(uint8(0), []byte{})
 	f.Add(uint8(3), []byte{0, 0, 0, 0})
